@@ -130,17 +130,33 @@ prefix = "/members/"
 allowed_fingerprints = ["{FP_OK}"]
 
 [[certificate_auth.paths]]
+prefix = "/members/welcome/"
+require_cert = false
+
+[[certificate_auth.paths]]
 prefix = "/any/"
+require_cert = true
+
+[[certificate_auth.paths]]
+prefix = "/"
+require_cert = false
+
+[[certificate_auth.paths]]
+prefix = "/late/deep/er/"
 require_cert = true
 ''')
     cfg = ServerConfig.from_toml(toml).get_certificate_auth_config()
-    want = [("/locked/", True, set()), ("/members/", False, {FP_OK}), ("/any/", True, None)]
+    # first match wins IN THE ORDER WRITTEN: a nested prefix after its parent and rules after "/" are shadowed, and stay so
+    want = [("/locked/", True, set()), ("/members/", False, {FP_OK}), ("/members/welcome/", False, None), ("/any/", True, None),
+            ("/", False, None), ("/late/deep/er/", True, None)]
     got = [(r.prefix, r.require_cert, r.allowed_fingerprints) for r in (cfg.path_rules if cfg else [])]
     if got != want:
         auth = CertificateAuth(cfg)
         allow, resp = asyncio.run(auth.process_request("gemini://h/locked/x", "192.0.2.1", FP_OTHER))
-        return dict(confirmed=True, input=dict(toml=toml.read_text()), observed=dict(rules=[repr(g) for g in got], locked_admits_any_certificate=allow),
-                    clause="an empty allow-list admits nobody; the rules enforced are the rules written")
+        nested, _ = asyncio.run(auth.process_request("gemini://h/members/welcome/x", "192.0.2.1", None))
+        return dict(confirmed=True, input=dict(toml=toml.read_text()), observed=dict(rules=[repr(g) for g in got], locked_admits_any_certificate=allow,
+                                                                                      members_welcome_admits_no_certificate=nested),
+                    clause="an empty allow-list admits nobody; the rules enforced are the rules written, in the order written (first covering rule decides)")
     return dict(confirmed=False, reason="TOML rules are reproduced field by field")
 
 
